@@ -361,6 +361,29 @@ class SubParam(nnx.Param):
   """A Variable type two levels below Variable: must be exposed under its own name, not under `params`."""
 
 
+class Tagged:
+  """A plain (non-Variable) mixin."""
+
+
+class MixFirst(Tagged, nnx.Param):
+  """Mixin listed FIRST: its MRO is MixFirst, Tagged, Param, Variable, ... (a non-Variable class in between)."""
+
+
+class MixLast(nnx.Param, Tagged):
+  """Mixin listed last."""
+
+
+class MixFirstSub(MixFirst):
+  """Sub-type of a sub-type, below the mixin."""
+
+
+class MixStat(Tagged, SubStat):
+  """Mixin first, two Variable levels below BatchStat."""
+
+
+UPARAM_TYPES = {'SubParam': SubParam, 'MixFirst': MixFirst, 'MixLast': MixLast, 'MixFirstSub': MixFirstSub, 'MixStat': MixStat}
+
+
 def rand_array(rng):
   shape = rng.choice([(), (2,), (2, 3), (1,)])
   n = int(np.prod(shape)) if shape else 1
@@ -939,7 +962,7 @@ def out_str(y):
 MUT_CHOICES = [False, False, ['batch_stats'], ['batch_stats'], True, ['batch_stats', 'cache']]
 
 
-LCOLS = ['batch_stats', 'SubStat', 'SubSubStat', 'Counter']
+LCOLS = ['batch_stats', 'SubStat', 'SubSubStat', 'Counter', 'params', 'SubParam', 'MixFirst', 'MixLast', 'MixFirstSub', 'MixStat']
 
 
 def gen_lhistory(rng):
@@ -953,7 +976,7 @@ def gen_lhistory(rng):
     elif k < 0.35:
       mut = True
     else:
-      mut = [c for c in LCOLS if rng.random() < 0.5] or [rng.choice(LCOLS)]
+      mut = [c for c in LCOLS if rng.random() < 0.35] or [rng.choice(LCOLS)]
     out.append((mut, [rng.randrange(-3, 4) for _ in range(6)]))
   return out
 
@@ -1303,7 +1326,8 @@ class NGen(nnx.Module):
       elif kind == 'count':
         setattr(self, layer[1], Counter(jnp.zeros((), jnp.int32)))
       elif kind == 'uparam':
-        setattr(self, layer[1], SubParam(jnp.asarray(i + 1, jnp.int32)))
+        t = UPARAM_TYPES[layer[2] if len(layer) > 2 else 'SubParam']
+        setattr(self, layer[1], t(jnp.asarray(i + 1, jnp.int32)))
       elif kind == 'stat':
         setattr(self, layer[1], vl.variable_type_from_name('batch_stats')(jnp.zeros((), jnp.int32), tag='s'))
       elif kind == 'substat':
@@ -1329,7 +1353,9 @@ class NGen(nnx.Module):
         c.value = c.value + 1
         x = x + c.value
       elif kind == 'uparam':
-        x = x * getattr(self, layer[1]).value
+        u = getattr(self, layer[1])
+        u.value = u.value + 1
+        x = x + u.value
       elif kind in ('stat', 'substat', 'subsubstat'):
         s = getattr(self, layer[1])
         s.value = s.value + jnp.sum(x) % 5 + 1
@@ -1366,8 +1392,8 @@ def gen_nspec(rng, depth):
       layers.append(('subsubstat', fresh('v')))
     elif k < 0.72:
       layers.append(('drop',))
-    elif k < 0.8:
-      layers.append(('uparam', fresh('u')))
+    elif k < 0.84:
+      layers.append(('uparam', fresh('u'), rng.choice(sorted(UPARAM_TYPES))))
     elif depth > 0:
       layers.append(('sub', fresh('m'), gen_nspec(rng, depth - 1)))
   if not any(l[0] == 'linear' for l in layers):
@@ -1475,7 +1501,10 @@ def run_tolinen_case(ctx, spec, hist, placement, seeds, reqs, metas):
       x = jnp.asarray(np.array(xs, np.int32).reshape(2, 3))
       c2 = dict(case, step=step)
       mutable = mut if isinstance(mut, bool) else [c for c in mut if c != 'cache'] or ['batch_stats']
-      ctx.count('tolinen_mutable', 'off' if mutable is False else ('all' if mutable is True else '+'.join(sorted(mutable))))
+      ctx.count('tolinen_mutable', 'off' if mutable is False else ('all' if mutable is True else f'{len(mutable)} collections'))
+      for l in spec:
+        if l[0] == 'uparam' and mutable not in (False, True):
+          ctx.count('tolinen_subtype_mutable', f'{l[2] if len(l) > 2 else "SubParam"}:{"own" if (l[2] if len(l) > 2 else "SubParam") in mutable else "-"}{"+params" if "params" in mutable else ""}')
       kw = {} if mutable is False else {'mutable': mutable}
       snap = snapshot_vars(caller_vars)
       # model: decode what the caller holds (queue before the call; inputs are impl-side only)
@@ -2132,7 +2161,7 @@ SCENARIOS = {'f13': scenario_f13, 'custom-box': scenario_custom_box, 'partitione
 
 def _init_globals():
   global _BASE_REG
-  for t in (nnx.Param, nnx.BatchStat, nnx.Cache, nnx.Intermediate, nnx.Perturbation, UserVar0, UserVar1, Counter, nnx.RngKey, nnx.RngCount, SubParam, SubStat, SubSubStat):
+  for t in (nnx.Param, nnx.BatchStat, nnx.Cache, nnx.Intermediate, nnx.Perturbation, UserVar0, UserVar1, Counter, nnx.RngKey, nnx.RngCount, SubParam, SubStat, SubSubStat, MixFirst, MixLast, MixFirstSub, MixStat):
     TT.tok(t)
   _BASE_REG = reg_json()
 
